@@ -36,9 +36,19 @@ var c07HandTexts = []string{
 	"\n",
 	"",
 	" \t \n\t\n",
+	// lines made of a multi-byte blank character next to empty lines, between records
+	"2020-01-01\n    1h\n\n\u3000\n2020-01-02\n    2h\n", "2020-01-01\nsummary of the day\n    1h\n\n\u3000\n\n2020-01-02\n", "2020-01-01\n    1h first\n\n2020-01-02\n    2h\n\n\u00a0\n2020-01-03\n    3h\n", "2020-01-01\n    1h\n\n\u2003\u2003\n",
 	// nothing visible, but not blank for klog: other white-space characters
 	"\f", "\v\n", "\r", "\u00a0", "\u3000\n\n", " \u00a0 \n", "\n\u2028\n", "\u0085", "\t\r\t", "\u200b",
 	"2020-01-01\n    1h\n        more\n        lines\n    2h x\n\n\n\n2020-01-02 (8h!)\n    <23:00 - 1:00>\n",
+}
+
+func init() {
+	// two records, an empty line, a line made of one three-byte blank character, another record - with paddings that move
+	// every chunk boundary across the bytes of that character
+	for pad := 0; pad < 28; pad++ {
+		c07HandTexts = append(c07HandTexts, "2020-01-01\n    1h "+strings.Repeat("x", pad)+"\n\n2020-01-02\n    2h\n\n\u3000\n2020-01-03\n    3h\n")
+	}
 }
 
 func c07SmallText(r *core.Rand, k int) (string, string) {
